@@ -1258,10 +1258,8 @@ class Converter(BaseConverter):
         self, cl: type[T]
     ) -> Callable[[T], dict[str, Any]]:
         origin = get_origin(cl)
-        attribs = fields(origin or cl)
-        if attrs_has(cl) and any(isinstance(a.type, str) for a in attribs):
-            # PEP 563 annotations - need to be resolved.
-            resolve_types(origin or cl)
+        # `_resolved_fields` resolves PEP 563 annotations, of dataclasses too.
+        attribs = _resolved_fields(origin or cl)
         attrib_overrides = {
             a.name: self.type_overrides[a.type]
             for a in attribs
@@ -1300,10 +1298,8 @@ class Converter(BaseConverter):
         self, cl: type[T]
     ) -> Callable[[Mapping[str, Any], Any], T]:
         origin = get_origin(cl)
-        attribs = fields(origin or cl if is_generic(cl) else cl)
-        if attrs_has(cl) and any(isinstance(a.type, str) for a in attribs):
-            # PEP 563 annotations - need to be resolved.
-            resolve_types(origin or cl)
+        # `_resolved_fields` resolves PEP 563 annotations, of dataclasses too.
+        attribs = _resolved_fields(origin or cl if is_generic(cl) else cl)
         attrib_overrides = {
             a.name: self.type_overrides[a.type]
             for a in attribs
